@@ -40,7 +40,8 @@ Lemma build20_inv y file :
     certsect_shape y (length bs) csb /\
     (length csb = if y_signed y then (80 + cb_raw_size (y_cb y))%nat else 0%nat) /\
     secs_export (E (y_dek y)) (y_mac y) (y_nonce y) (ctr_of_nonce (y_nonce y) + N.of_nat ((208 + length csb) / 16)) (y_secs y) = Ok bs /\
-    uids_distinct [] (map s_uid (y_secs y)) = true.
+    uids_distinct [] (map s_uid (y_secs y)) = true /\
+    (exists s0 st, y_secs y = s0 :: st /\ fbsid = s_uid s0).
 Proof.
   intros (Wsecs & Wdek & Wmac & Wpad2 & Wsig & Wpv & Wcv) Hdom H. unfold build20_gen in H.
   destruct (uids_distinct [] (map s_uid (y_secs y))) eqn:Huid; [|discriminate]. cbn [negb] in H.
@@ -94,7 +95,7 @@ Proof.
   { unfold flags20.
     replace (if y_signed y then N.of_nat (208 + 80) else 0) with (if y_signed y then 288 else 0) in Ehb by (destruct (y_signed y); reflexivity).
     exact Ehb. }
-  split; [exact Hshape|]. split; [exact Lcsb|]. split; [|reflexivity].
+  split; [exact Hshape|]. split; [exact Lcsb|]. split; [|split; [reflexivity| exists s0, st; split; [exact Esecs|reflexivity]]].
   replace (ctr_of_nonce (y_nonce y) + N.of_nat ((208 + length csb) / 16)) with (ctr0 + N.of_nat (length csb / 16))
     by (unfold ctr0; lia).
   exact Ebs.
@@ -111,10 +112,11 @@ Lemma rom20_build_lemma y file :
   exists r, rom20 E D (y_sigsize y) (y_kek y) file = Some r /\
     t_secs r = spec_of (y_secs y) /\ t_signed r = y_signed y /\ t_pv r = y_pv y /\ t_cv r = y_cv y /\
     t_build r = y_build y /\ t_ts r = y_ts y /\ t_sig r = sigpart y /\
-    file = firstn (t_signed_len r) file ++ sigpart y /\ length (firstn (t_signed_len r) file) = t_signed_len r.
+    file = firstn (t_signed_len r) file ++ sigpart y /\ length (firstn (t_signed_len r) file) = t_signed_len r /\
+    t_boot_index r = 0%nat /\ hdr_first_boot_section_id file = option_map s_uid (hd_error (y_secs y)).
 Proof.
   intros W Hdom H.
-  destruct (build20_inv y file W Hdom H) as (hb & kb0 & csb & bs & fbsid & mm & Hfile & Lhb & Lkb0 & Hkw & Htag & Hraw & Ehb & Hshape & Lcsb & Ebs & Huid).
+  destruct (build20_inv y file W Hdom H) as (hb & kb0 & csb & bs & fbsid & mm & Hfile & Lhb & Lkb0 & Hkw & Htag & Hraw & Ehb & Hshape & Lcsb & Ebs & Huid & (s0 & st & Esecs0 & Hfb)).
   destruct W as (Wsecs & Wdek & Wmac & Wpad2 & Wsig & Wpv & Wcv).
   set (hm := hmac256 (y_mac y) hb) in *.
   assert (Lhm : length hm = 32%nat) by apply hmac256_length.
@@ -132,10 +134,13 @@ Proof.
   assert (Hfile' : file = (hb ++ hm ++ kb ++ csb) ++ bs ++ sigpart y) by (rewrite Hfile; unfold sigpart; rewrite <- !app_assoc; reflexivity).
   assert (Lpre : length (hb ++ hm ++ kb ++ csb) = start) by (rewrite !app_length, Lhb, Lhm, Lkb; unfold start; lia).
   assert (Lfile : length file = (stop + length (sigpart y))%nat) by (rewrite Hfile', app_length, Lpre, app_length; unfold stop, start; lia).
+  assert (Hunp : unpack imghdr_format file = _) by (rewrite Hfile; apply (ihdr_unpack _ hb _ Ehb)).
+  assert (Hfid : hdr_first_boot_section_id file = option_map s_uid (hd_error (y_secs y))).
+  { unfold hdr_first_boot_section_id. change rom_imghdr_layout with imghdr_format. rewrite Hunp. cbv beta iota.
+    rewrite Esecs0, Hfb. reflexivity. }
   unfold rom20.
   replace (Nat.ltb (length file) 208) with false by (symmetry; apply Nat.ltb_ge; rewrite Lfile; unfold stop; lia).
   change rom_imghdr_layout with imghdr_format.
-  assert (Hunp : unpack imghdr_format file = _) by (rewrite Hfile; apply (ihdr_unpack _ hb _ Ehb)).
   rewrite Hunp. clear Hunp. cbv beta iota.
   cbn [ih_nonce ih_pad ih_major ih_minor ih_flags ih_image_blocks ih_first_boot_tag_block ih_first_boot_section_id ih_cert_off
        ih_header_blocks ih_key_blob_block ih_key_blob_block_count ih_max_mac ih_ts ih_pv ih_cv ih_build].
@@ -170,13 +175,18 @@ Proof.
       else if negb (Nat.eqb (length file) (stop + (if y_signed y then y_sigsize y else 0))) then None
       else match rom_sections (E (y_dek y)) (S (length file)) (y_mac y) (y_nonce y) (firstn stop file) start stop with
            | None => None
-           | Some secs => Some (mkRom20 (y_signed y) (bswap (swap16 (fst (fst (y_pv y)))), bswap (swap16 (snd (fst (y_pv y)))), bswap (swap16 (snd (y_pv y))))
+           | Some secs =>
+               match find_uid_index fbsid (map fst secs) with
+               | None => None
+               | Some bi => Some (mkRom20 (y_signed y) (bswap (swap16 (fst (fst (y_pv y)))), bswap (swap16 (snd (fst (y_pv y)))), bswap (swap16 (snd (y_pv y))))
                                         (bswap (swap16 (fst (fst (y_cv y)))), bswap (swap16 (snd (fst (y_cv y)))), bswap (swap16 (snd (y_cv y))))
-                                        (y_build y) (y_ts y) secs stop (skipn stop file))
+                                        (y_build y) (y_ts y) secs stop (skipn stop file) bi)
+               end
            end) =
-     Some (mkRom20 (y_signed y) (y_pv y) (y_cv y) (y_build y) (y_ts y) (spec_of (y_secs y)) stop (sigpart y))).
+     Some (mkRom20 (y_signed y) (y_pv y) (y_cv y) (y_build y) (y_ts y) (spec_of (y_secs y)) stop (sigpart y) 0)).
   { intros first ->. rewrite Nat.eqb_refl. cbn [negb].
     rewrite Hwalk, Sskip. rewrite Lfile at 1. rewrite Lsig, Nat.eqb_refl. cbn [negb].
+    rewrite Esecs0, Hfb. cbn [spec_of map fst find_uid_index]. rewrite N.eqb_refl.
     destruct Wpv as (P1 & P2 & P3). destruct Wcv as (C1 & C2 & C3).
     destruct (y_pv y) as [[p0 p1] p2]. destruct (y_cv y) as [[c0 c1] c2]. cbn [fst snd] in *.
     rewrite !bswap_swap16 by assumption. reflexivity. }
@@ -223,16 +233,18 @@ Proof.
     rewrite S3, S4, eqb_list_refl, S5. change (negb (eqb_list [99; 101; 114; 116] [99; 101; 114; 116])) with false. cbn [negb]. cbv beta iota.
     match goal with |- context [negb (?a && ?b && ?c && ?d)] => change (negb (a && b && c && d)) with false end. cbv beta iota.
     rewrite (Hfin (288 + cbraw)%nat) by (unfold start; rewrite Lcsb; lia).
-    eexists. split; [reflexivity|]. cbn [t_secs t_signed t_pv t_cv t_build t_ts t_sig t_signed_len].
+    eexists. split; [reflexivity|]. cbn [t_secs t_signed t_pv t_cv t_build t_ts t_sig t_signed_len t_boot_index].
     rewrite Sstop, app_nil_r. repeat split.
     + rewrite Hfile' at 1. rewrite <- !app_assoc. reflexivity.
     + rewrite !app_length, Lhb, Lhm, Lkb. unfold stop, start. rewrite ?app_length. cbn [length]. lia.
+    + exact Hfid.
   - subst csb. cbv beta iota.
     rewrite (Hfin 208%nat) by (unfold start; cbn [length]; lia).
-    eexists. split; [reflexivity|]. cbn [t_secs t_signed t_pv t_cv t_build t_ts t_sig t_signed_len].
+    eexists. split; [reflexivity|]. cbn [t_secs t_signed t_pv t_cv t_build t_ts t_sig t_signed_len t_boot_index].
     rewrite Sstop, app_nil_r. repeat split.
     + rewrite Hfile' at 1. rewrite <- !app_assoc. reflexivity.
     + rewrite !app_length, Lhb, Lhm, Lkb. unfold stop, start. rewrite ?app_length. cbn [length]. lia.
+    + exact Hfid.
 Qed.
 
 Lemma cb_parse_size_export cb build il cbb rest :
@@ -273,7 +285,7 @@ Lemma spsdk_parse20_build_lemma y file :
                    (length file - length (sigpart y))).
 Proof.
   intros W Hdom Hpv Hcv Hkek H.
-  destruct (build20_inv y file W Hdom H) as (hb & kb0 & csb & bs & fbsid & mm & Hfile & Lhb & Lkb0 & Hkw & Htag & Hraw & Ehb & Hshape & Lcsb & Ebs & Huid).
+  destruct (build20_inv y file W Hdom H) as (hb & kb0 & csb & bs & fbsid & mm & Hfile & Lhb & Lkb0 & Hkw & Htag & Hraw & Ehb & Hshape & Lcsb & Ebs & Huid & (s0 & st & Esecs0 & Hfb)).
   destruct W as (Wsecs & Wdek & Wmac & Wpad2 & Wsig & Wpv & Wcv).
   set (hm := hmac256 (y_mac y) hb) in *.
   assert (Lhm : length hm = 32%nat) by apply hmac256_length.
@@ -367,7 +379,7 @@ Lemma counter_agreement20_lemma y file :
       = Some (spec_of (y_secs y)).
 Proof.
   intros W Hdom H.
-  destruct (build20_inv y file W Hdom H) as (hb & kb0 & csb & bs & fbsid & mm & Hfile & Lhb & Lkb0 & Hkw & Htag & Hraw & Ehb & Hshape & Lcsb & Ebs & Huid).
+  destruct (build20_inv y file W Hdom H) as (hb & kb0 & csb & bs & fbsid & mm & Hfile & Lhb & Lkb0 & Hkw & Htag & Hraw & Ehb & Hshape & Lcsb & Ebs & Huid & (s0 & st & Esecs0 & Hfb)).
   destruct W as (Wsecs & Wdek & Wmac & Wpad2 & Wsig & Wpv & Wcv).
   set (hm := hmac256 (y_mac y) hb) in *.
   assert (Lhm : length hm = 32%nat) by apply hmac256_length.
@@ -406,7 +418,7 @@ Lemma coverage20_lemma y file :
     length (sigpart y) = (if y_signed y then y_sigsize y else 0%nat).
 Proof.
   intros W Hdom H.
-  destruct (build20_inv y file W Hdom H) as (hb & kb0 & csb & bs & fbsid & mm & Hfile & Lhb & Lkb0 & Hkw & Htag & Hraw & Ehb & Hshape & Lcsb & Ebs & Huid).
+  destruct (build20_inv y file W Hdom H) as (hb & kb0 & csb & bs & fbsid & mm & Hfile & Lhb & Lkb0 & Hkw & Htag & Hraw & Ehb & Hshape & Lcsb & Ebs & Huid & (s0 & st & Esecs0 & Hfb)).
   destruct W as (Wsecs & Wdek & Wmac & Wpad2 & Wsig & Wpv & Wcv).
   exists hb, kb0, csb, bs. split; [exact Hfile|]. split; [exact Lhb|]. split; [exact Lkb0|]. split; [exact Wpad2|]. split; [exact Hkw|].
   split; [|split].
@@ -416,6 +428,45 @@ Proof.
     apply xblock_length; [apply E_len | apply hdr_export_length].
   - eapply secs_export_covered; [apply E_len | exact Wsecs | exact Ebs].
   - unfold sigpart. destruct (y_signed y); [now apply Wsig|reflexivity].
+Qed.
+
+(* ---------------- SB 2.1: the header's first_boot_section_id is the first section's id, and the ROM that locates its
+   starting section by that id starts with the first section *)
+Lemma build21_first_id counted x file :
+  length (x_sig x) = x_sigsize x -> build21_gen E counted x = Ok file ->
+  exists s0 st, x_secs x = s0 :: st /\ hdr_first_boot_section_id file = Some (s_uid s0).
+Proof.
+  intros Wsig H. unfold build21_gen in H.
+  destruct (x_secs x) as [|s0 st] eqn:Esecs; [discriminate|]. rewrite <- Esecs in *.
+  destruct (secs_raw_size (x_secs x)) as [ssz|] eqn:Essz; [|discriminate].
+  destruct (aligned16 _); [|discriminate]. destruct (aligned16 _); [|discriminate].
+  destruct (Nat.eqb (length (x_nonce x)) 16); [|discriminate]. destruct (aligned16 _); [|discriminate]. cbn [negb] in H.
+  destruct (secs_export _ _ _ _ _) as [bs|]; [|discriminate].
+  set (hdr := mkIhdr _ _ _ _ _ _ _ _ _ _ _ _ _ _ _ _ _) in H.
+  destruct (ihdr_export hdr) as [hb|] eqn:Ehb; [|discriminate].
+  destruct (cb_export _ _ _) as [cbb|]; [|discriminate].
+  rewrite Wsig, Nat.eqb_refl in H. cbn [negb] in H. injection H as <-.
+  exists s0, st. split; [exact Esecs|].
+  unfold hdr_first_boot_section_id. change rom_imghdr_layout with imghdr_format.
+  rewrite <- !app_assoc. rewrite (ihdr_unpack hdr hb _ Ehb). reflexivity.
+Qed.
+
+Lemma rom21_boot_build_lemma x file :
+  wf_sbin x -> kwdom (x_kek x) (x_dek x ++ x_mac x) -> build21_gen E true x = Ok file ->
+  exists r, rom21_boot E D (x_sigsize x) (x_kek x) file = Some (r, 0%nat) /\
+     r_secs r = spec_of (x_secs x) /\ r_flags r = x_flags x /\ r_pv r = x_pv x /\ r_cv r = x_cv x /\
+     r_build r = x_build x /\ r_ts r = x_ts x /\ r_major r = 2 /\ r_minor r = 1 /\
+     r_sig r = x_sig x /\ r_signed_len r = signed_len_of x /\
+     hdr_first_boot_section_id file = option_map s_uid (hd_error (x_secs x)).
+Proof.
+  intros W Hdom H.
+  destruct (rom21_build_lemma E D E_len kwdom KW true x file W Hdom (or_introl eq_refl) H) as (r & Hr & Hs & Hrest).
+  destruct W as (_ & _ & _ & Wsig & _).
+  destruct (build21_first_id true x file Wsig H) as (s0 & st & Esecs & Hfid).
+  exists r. split.
+  - unfold rom21_boot. rewrite Hr, Hfid, Hs, Esecs. cbn [spec_of map fst find_uid_index]. rewrite N.eqb_refl. reflexivity.
+  - split; [exact Hs|]. repeat (destruct Hrest as [? Hrest]; split; [assumption|]). split; [exact Hrest|].
+    rewrite Hfid, Esecs. reflexivity.
 Qed.
 
 End Cipher20Proofs.
